@@ -125,3 +125,34 @@ pub fn media_filename_ok(filename: &str) -> bool {
 pub fn media_mime_canonical(mime_type: &str) -> Option<String> {
     crate::media_processing::validation::validate_mime_type(mime_type).ok()
 }
+
+/// A Remove proposal for the member with Nostr key `victim`, built directly with OpenMLS by the
+/// local member (i.e. by a client that does not go through MDK's own admin gates) and wrapped as a
+/// kind-445 event. Used by replay scenarios only.
+pub fn raw_remove_proposal_event<S>(
+    mdk: &crate::MDK<S>,
+    group_id: &mdk_storage_traits::GroupId,
+    victim: &nostr::PublicKey,
+) -> Result<nostr::Event, Error>
+where
+    S: mdk_storage_traits::MdkStorageProvider,
+{
+    let mut group = mdk.load_mls_group(group_id)?.ok_or(Error::GroupNotFound)?;
+    let signer = mdk.load_mls_signer(&group)?;
+    let mut target = None;
+    for member in group.members() {
+        let identity = openmls::prelude::BasicCredential::try_from(member.credential)
+            .map_err(|e| Error::Group(e.to_string()))?;
+        if identity.identity() == victim.to_bytes().as_slice() {
+            target = Some(member.index);
+        }
+    }
+    let target = target.ok_or(Error::Group("no such member".to_string()))?;
+    let (message, _proposal_ref) = group
+        .propose_remove_member(&mdk.provider, &signer, target)
+        .map_err(|e| Error::Group(e.to_string()))?;
+    let bytes = message
+        .tls_serialize_detached()
+        .map_err(|e| Error::Group(e.to_string()))?;
+    mdk.build_message_event(group_id, bytes)
+}
